@@ -1,0 +1,14 @@
+// Copyright 2012 Google, Inc. All rights reserved.
+//
+// Use of this source code is governed by a BSD-style license
+// that can be found in the LICENSE file in the root of the source
+// tree.
+
+//go:build !verif
+
+package reassembly
+
+// Scheduling hooks for the "verif" build tag; no-ops in normal builds.
+func verifYield(string, interface{}) {}
+
+func verifOrder(*StreamPool, []*connection) {}
